@@ -6,6 +6,36 @@ from pathlib import Path
 V = Path(__file__).resolve().parent.parent
 
 CHECKS = {
+    "C01": dict(
+        category="proof",
+        text="Lean 4 theorems (C01.*), core Lean, by mutual structural induction over arbitrary nested lattices: the "
+             "code's Segment.track algorithm (all-skippable shortcut; grouping of maximal runs of skippable elements "
+             "into temporary segments; nested segments) equals element-by-element tracking in lattice order for every "
+             "semantics satisfying the linear contract; invariance under nesting, flattening, cutting into sub-cells; "
+             "subcell specification; length additivity; and the contract itself is proved for the model's concrete "
+             "ParticleBeam/ParameterBeam semantics over all element kinds. Tie: the real Segment code runs on integer "
+             "stub Element subclasses and is compared bit-for-bit with the Lean algorithm over Int (8 ops), and the "
+             "contract is checked on every real element class; falsifier: Segment.track vs Python fold on random real "
+             "lattices (nested / flattened / cut), with shrinking.",
+        design="§5 C01",
+        note="Trusted: Lean kernel (axioms: propext only for the lattice theorems), stub harness, generators. The "
+             "per-element contract of the real classes is sampled, not proved.",
+        technique="Lean 4 proof by mutual induction over lattices + exact integer-stub correspondence + real-lattice falsifier",
+    ),
+    "C08": dict(
+        category="proof",
+        text="Lean 4 theorems (C08.*): the transfer_maps_merged loop (pending run, single-element runs kept, trailing run "
+             "always merged, exception list, forward-tracked beam) preserves the tracking of the given beam for every "
+             "lattice and lawful semantics; excepted / non-mergeable elements are kept unchanged in order and never "
+             "inside a merged map; dropping identity-tracking elements and replacing by equal-tracking elements "
+             "preserve tracking (the per-class hypotheses are sampled on the real classes). Tie: exact stub "
+             "correspondence of the merged lattice structure incl. every merged matrix; falsifier on random real "
+             "lattices for all four transformations with shrinking to the culprit element.",
+        design="§5 C08",
+        note="Trusted: Lean kernel, stub harness. Known findings (elements without is_active are treated as inactive) "
+             "are listed in known_findings.json.",
+        technique="Lean 4 proof (loop invariant by induction) + exact integer-stub correspondence + real-lattice falsifier",
+    ),
     "C02": dict(
         category="proof",
         text="Lean 4 theorems (C02.*): the model's body map (drift limit, quadrupole of either sign, sector bend with "
